@@ -3,11 +3,16 @@ use crate::util::Opts;
 
 pub mod c01;
 pub mod c02;
+pub mod c03;
+pub mod c04;
 
 pub fn run(prop: &str, opts: &Opts) -> bool {
     match prop {
         "c01" => c01::run(opts),
         "c02" => c02::run(opts),
+        "c03" => c03::run(opts),
+        "c04" => c04::run(opts),
+        "c04feed" => c04::feed(opts),
         _ => return false,
     }
     true
